@@ -551,9 +551,18 @@ def gen_hist(rng, model, *, nphase=None, watch_prob=0.3, break_prob=0.12, sub_pr
             models.append(current)
             if not watching:
                 events.append(("build", build_kwargs()))
-            events.append(("edits", [("write", path, current.static[path])]))
+            repair = [("write", path, current.static[path])]
+            label = "repair"
+            if rng.random() < 0.6:
+                # ... and changes another source while the plan's steps are detached leftovers.
+                before = final_render(current)
+                current, kind = projgen.mutate(rng, current, "change_source")
+                repair = [e for e in projgen._edits_between(before, final_render(current)) if e[1] != path] + \
+                    [("write", path, current.static[path])]
+                label = "repair+" + kind
+            events.append(("edits", repair))
             source_only.append(None)
-            mutations.append("repair")
+            mutations.append(label)
             models.append(current)
             if not watching:
                 events.append(("build", build_kwargs()))
